@@ -211,6 +211,7 @@ func (s *SourceControl) runLaterIfActive(f func()) error {
 	verifPoint("rpc.beforeSend")
 	// The source may have ended by itself since isSourceActive was last updated; then there is no
 	// core loop left to receive the request, and waiting for one would block this caller forever.
+	verifSync("send", "qreq", s.queuedRequests)
 	select {
 	case s.queuedRequests <- f:
 	case <-s.ActiveSource.RunDoneChan():
@@ -218,6 +219,7 @@ func (s *SourceControl) runLaterIfActive(f func()) error {
 		return fmt.Errorf("no source is active")
 	}
 	verifPoint("rpc.sent")
+	defer verifSync("recv", "qres", nil)
 	return <-s.queuedResults
 }
 
